@@ -104,7 +104,7 @@ class Batch:
 
     def flush(self, ctx):
         exprs = [e for part, _ in self.parts for e in part]
-        model = ctx.coq_eval(ALL_MODELS, exprs, shard=24) if exprs else []
+        model = ctx.coq_eval(ALL_MODELS, exprs, shard=(24 if ctx.quick() else 60)) if exprs else []
         k = 0
         for part, cb in self.parts:
             cb(model[k:k + len(part)])
@@ -1243,26 +1243,26 @@ def run(ctx):
     # ---- data path
     cases = [_case_from_json(c['replay']['case']) for c in corpus if c['replay']['kind'] == 'data']
     r = rng.fork('data')
-    for i in range(ctx.n(90, 2500)):
+    for i in range(ctx.n(90, 1200)):
         cases.append(gen_data_case(r, big=(i % 8 == 0)))
     batch = Batch()
     run_data(ctx, cases, batch)
     # ---- set-up / teardown
     scheds = [c['replay']['labels'] for c in corpus if c['replay']['kind'] == 'sm']
     r = rng.fork('sm')
-    for _ in range(ctx.n(200, 6000)):
+    for _ in range(ctx.n(200, 3000)):
         scheds.append(gen_sm_schedule(r, r.choice([6, 12, 20, 30, 45])))
     if not ctx.quick():
-        # every schedule of length 7 after the connection is up over the five interesting labels
+        # every 5-label continuation, over the five interesting labels, of an open data link
         base = [0, 8, 9, 1, 8, 9, 8, 9, 9, 8, 8, 9]
-        for seq in itertools.product([2, 3, 4, 8, 9], repeat=6):
+        for seq in itertools.product([2, 3, 4, 8, 9], repeat=5):
             scheds.append(base + list(seq) + [8, 9, 8, 9, 8, 9])
-        ctx.extra['exhaustive_sm_suffix_depth'] = 6
+        ctx.extra['exhaustive_sm_suffix_depth'] = 5
     run_sm(ctx, scheds, batch)
     # ---- HFP SLC
     slc_cases = [c['replay']['case'] for c in corpus if c['replay']['kind'] == 'slc']
     r = rng.fork('slc')
-    for rep in range(ctx.n(2, 30)):
+    for rep in range(ctx.n(2, 15)):
         for hb in range(8):
             for ab in range(8):
                 slc_cases.append(gen_slc_case(r, hb, ab))
